@@ -156,6 +156,7 @@ type SpecDB struct {
 	Tracked  map[string]bool
 	RaceStrict map[string]bool
 	SweepWrappers map[string]bool
+	RawAxioms []RawAxiom
 	Callers  []*CallersDecl
 	Conds    map[string]string
 	GlobalInvs map[string][]*Clause
@@ -164,6 +165,13 @@ type SpecDB struct {
 	Errors   []string
 	Files    []string
 	AssumeScan []string
+}
+
+type RawAxiom struct {
+	When []string
+	Body string
+	Pkg  string
+	Line int
 }
 
 type CallersDecl struct {
@@ -213,7 +221,7 @@ func parseLabel(s string) (label string, tags []string, rest string) {
 	return
 }
 
-var directiveKW = map[string]bool{"globalinv": true, "uf": true, "tracked": true, "cond": true, "callers": true, "racestrict": true, "sweepwrappers": true, "autotag": true, "option": true, "import": true, "ghost": true, "pred": true, "inv": true, "lockinv": true, "protect": true,
+var directiveKW = map[string]bool{"globalinv": true, "uf": true, "tracked": true, "cond": true, "callers": true, "racestrict": true, "sweepwrappers": true, "rawaxiom": true, "autotag": true, "option": true, "import": true, "ghost": true, "pred": true, "inv": true, "lockinv": true, "protect": true,
 	"typeinv": true, "lockorder": true, "guards": true, "func": true, "dyn": true, "lemma": true, "mono": true, "spec": true}
 var clauseKW = map[string]bool{"requires": true, "ensures": true, "loop": true, "locks": true, "modifies": true, "inline": true,
 	"trusted": true, "entry": true, "optional": true, "blocking": true, "pure": true, "callsite": true, "captures": true,
@@ -470,6 +478,14 @@ func (db *SpecDB) loadSpecFile(path string, pkgPath string, goFile bool) {
 				continue
 			}
 			db.Callers = append(db.Callers, &CallersDecl{Label: label, Tags: tags, Fn: strings.TrimSpace(rest[:i]), Allowed: strings.Fields(rest[i+1:]), Pkg: pkgPath, File: path, Line: it.n})
+		case "rawaxiom":
+			// rawaxiom <symbol that triggers inclusion> :: <SMT-LIB term>   (definitional axioms of spec functions)
+			i := strings.Index(it.text, "::")
+			if i < 0 {
+				db.Errors = append(db.Errors, fmt.Sprintf("%s:%d: rawaxiom without ::", path, it.n))
+				continue
+			}
+			db.RawAxioms = append(db.RawAxioms, RawAxiom{When: strings.Fields(it.text[:i]), Body: strings.TrimSpace(it.text[i+2:]), Pkg: pkgPath, Line: it.n})
 		case "sweepwrappers":
 			for _, t := range strings.Fields(it.text) {
 				db.SweepWrappers[pkgPath+"."+t] = true
